@@ -431,6 +431,9 @@ def plan_C09(run):
 
 
 def plan_C10(run):
+    tlaps_proof(run, "CodecProof", "C10", "marker, lengths and decode(encode) = identity for EVERY size < 2^23 and EVERY opcode < 2^16 (arithmetic form)")
+    run.model("bitfacts", "MCBitFacts", "MCBitFacts.cfg", workers=1,
+              exhaustive_note="the arithmetic form of CodecProof equals the specification's Bitwise codec: bit facts for all 256 bytes, encoders/decoders on boundary sizes x opcodes")
     r = run.model("wrathheader", "MCWrathHeader", "MCWrathHeader_%s.cfg" % ("t" if run.thorough else "q"), workers=8,
                   exhaustive_note="codec facts on all sizes of the configured shards; all header sequences up to MaxLen over the boundary sets")
     if run.thorough:
@@ -522,7 +525,9 @@ def plan_C19(run):
     corpus = CORPUS if os.path.exists(CORPUS) else None
     ra = run.model("adversary-cases", "MCAdversary", "MCAdversary_cases.cfg", workers=1)
     adv = run.scen_file("adversary", ra.replay)
-    sets = [("auth", corpus, 3000 if run.thorough else 200), ("tamper", None, 6 if run.thorough else 1), ("pubkey", None, None),
+    ro = run.model("pubkey-own", "MCPubKey", "MCPubKey_own.cfg", workers=1)
+    own = run.scen_file("ownkey", ro.replay)
+    sets = [("auth", corpus, 3000 if run.thorough else 200), ("tamper", None, 6 if run.thorough else 1), ("pubkey", None, None), ("ownkey", own, None),
             ("adversary", adv, None), ("interleave", None, None), ("clientgroups", cg, None), ("degenerate", None, None)]
     run.assumptions.append("srp-fast-math is rug linked against the system GMP 6.2.1 through tools/gmpshim (bundled GMP 6.3.0 cannot be built offline: no m4)")
     for mode, scen, n in sets:
